@@ -148,6 +148,14 @@ def op_insert_index(root, n, cp):
             out.append((r.is_allowed_child(c), r.child_insert_index(n, Node(c))))
         except Exception as e:  # noqa
             out.append(type(e).__name__)
+    # candidates that are already part of the tree (re-positioning questions): the parent's own children, the parent
+    # itself, a node from elsewhere in the tree - the query must treat them as read-only as well
+    attached = list(n.children[:2]) + list(n.children[-1:]) + [n, root] + ([n.parent] if n.parent is not None else [])
+    for c in attached:
+        try:
+            out.append((c.name, r.child_insert_index(n, c)))
+        except Exception as e:  # noqa
+            out.append(type(e).__name__)
     return out
 
 
